@@ -66,3 +66,74 @@ def is_zero_const(e):
     if e.op == "const" and e.info[0] == "scalar" and e.info[1] == 0:
         return True
     return False
+
+
+def push_sequences(world, e, limit=64):
+    """enumerate the element sequences of a Vec built by Vec::new()/vec![] and push()
+    along every alternative (phi); loops are cut"""
+    e = world.ident(e, expand_ws=False)
+    out = []
+
+    def go(x, depth):
+        x = world.ident(x, expand_ws=False)
+        if depth > 40:
+            return [[]]
+        if x.op == "out" and x.info[0].endswith("Vec::push"):
+            res = []
+            for s in go(x.args[0], depth + 1):
+                res.append(s + [x.args[-1]])
+            return res
+        if x.op == "out" and x.info[0].rsplit("::", 1)[-1] in ("append", "extend", "extend_from_slice"):
+            res = []
+            for s in go(x.args[0], depth + 1):
+                res.append(s + [x.args[-1]])
+            return res
+        if x.op == "phi":
+            res = []
+            for a in x.args:
+                res.extend(go(a, depth + 1))
+                if len(res) > limit:
+                    break
+            return res
+        if x.op == "call" and x.info == "vec!":
+            arr = x.args[0]
+            return [list(arr.args)] if arr.op == "array" else [[x]]
+        if x.op == "call" and x.info in ("std::vec::Vec::new", "std::vec::Vec::with_capacity"):
+            return [[]]
+        if x.op == "rec":
+            return [[]]  # loop-carried prefix: unknown earlier elements
+        return [[x]]
+    return go(e, 0)
+
+
+RESP_PASS = ("add_attribute", "add_attributes", "add_event", "add_events", "set_data")
+
+
+def response_sequences(world, x, depth=0):
+    """message sequences of a Response-valued expression (alternatives along phi), following the builder chain
+    Response::new().add_message(m).add_messages(v).add_submessages(v)...; an unrecognised link yields a one-element sequence [x]"""
+    x = world.ident(x, expand_ws=False)
+    if depth > 40:
+        return [[x]]
+    if x.op == "adt" and x.info[0].endswith("::Result") and x.info[1] == "Ok":
+        return response_sequences(world, x.args[0], depth + 1)
+    if x.op == "phi":
+        out = []
+        for a in x.args:
+            for s in response_sequences(world, a, depth + 1):
+                if s not in out:
+                    out.append(s)
+        return out
+    if x.op == "call" and isinstance(x.info, str) and x.info.startswith("cosmwasm_std::Response::"):
+        nm = x.info.rsplit("::", 1)[1]
+        if nm in ("new", "default"):
+            return [[]]
+        if nm in RESP_PASS:
+            return response_sequences(world, x.args[0], depth + 1)
+        if nm in ("add_message", "add_submessage"):
+            return [s + [x.args[1]] for s in response_sequences(world, x.args[0], depth + 1)]
+        if nm in ("add_messages", "add_submessages"):
+            return [s + t for s in response_sequences(world, x.args[0], depth + 1) for t in push_sequences(world, x.args[1])]
+    if x.op == "call" and isinstance(x.info, str) and x.info.endswith("Default::default"):
+        return [[]]
+    return [[x]]
